@@ -39,6 +39,13 @@ func leaseUniverses(thorough bool) []*ledger.Universe {
 			{Ins: []ledger.In{ext(100)}, Outs: o("c")},
 			{Ins: []ledger.In{par(0, 0)}, Outs: o("-")},
 			{Ins: []ledger.In{par(0, 0)}, Outs: o("C")}}},
+		// several unspent credits at once (of one transaction / next to a leased one): a lease
+		// on one of them must not change how the others are counted
+		{Name: "three-credits-one-tx", Txs: []ledger.TxSpec{
+			{Ins: []ledger.In{ext(100)}, Outs: o("ccc")}}},
+		{Name: "two-credits-one-tx+spender", Txs: []ledger.TxSpec{
+			{Ins: []ledger.In{ext(100)}, Outs: o("cc")},
+			{Ins: []ledger.In{par(0, 1)}, Outs: o("C")}}},
 	}
 	if thorough {
 		us = append(us,
